@@ -407,6 +407,12 @@ func c12Router(r *lp.Run, rng *lp.Rand) {
 		r.Fail(lp.PropFail{Property: "C12", What: "the generator refuses a route set whose keys are equivalent re-spellings of an accepted one", Input: rsetLine(routes2), Observed: err.Error(), Expected: "generated router"})
 		return
 	}
+	routes3 := []rroute{{"GET", "/my%20pets/{name}"}, {"GET", "/q%3Fa/{name}"}, {"GET", "/caf%C3%A9/{name}"}}
+	pkg3, err := mod.Add("nr3", []byte(specForRoutes(routes3)), gen.Options{})
+	if err != nil {
+		r.Note("route set with escaped static text refused: " + err.Error())
+		pkg3 = nil
+	}
 	stripPattern := func(s string) string {
 		// "F:ok <name> <pattern> <args> S:…" without the pattern (the key as spelled in the spec)
 		f := strings.SplitN(s, " ", 4)
@@ -447,11 +453,7 @@ func c12Router(r *lp.Run, rng *lp.Rand) {
 					spellings = append(spellings, respellEscaped(rng, canonical))
 				}
 				for _, sp := range spellings {
-					raw := sp
-					if raw == decoded {
-						raw = ""
-					}
-					items = append(items, [3]string{rt.method, decoded, raw})
+					items = append(items, c12RequestItem(rt.method, sp, decoded))
 				}
 				ans, _ := drv.Do(map[string]any{"pkg": pkg.Name, "cmd": "batch", "prefix": prefix, "items": items})
 				res, ok := ans["results"].([]any)
@@ -512,6 +514,55 @@ func c12Router(r *lp.Run, rng *lp.Rand) {
 			}
 		}
 	}
+	// static text that has to stay escaped (a space, a question mark): the known class K18 — the tree holds the
+	// key's escaped spelling, a request without RawPath is matched in decoded form
+	if pkg3 != nil {
+		for _, rt := range routes3 {
+			for k := 0; k < r.N(6, 40); k++ {
+				v := lp.Pick(rng, []string{"xy", "a", "A-Z", "x.y"})
+				canonical := tmplInst(rt.tmpl, []string{v})
+				decoded, derr := url.PathUnescape(canonical)
+				if derr != nil {
+					continue
+				}
+				spellings := []string{canonical}
+				for i := 0; i < 4; i++ {
+					spellings = append(spellings, respellEscaped(rng, canonical))
+				}
+				var items [][3]string
+				for _, sp := range spellings {
+					items = append(items, c12RequestItem(rt.method, sp, decoded))
+				}
+				ans, _ := drv.Do(map[string]any{"pkg": pkg3.Name, "cmd": "batch", "prefix": "", "items": items})
+				res, ok := ans["results"].([]any)
+				if !ok {
+					r.Fail(lp.PropFail{Property: "C12", What: "driver failure", Input: canonical, Observed: fmt.Sprint(ans), Expected: "results"})
+					return
+				}
+				r.PropCheck()
+				for i := range res {
+					r.Count("c12router-k18 "+spellings[i], "router-escaped-static", true)
+					if res[i] != res[0] || strings.HasPrefix(fmt.Sprint(res[i]), "F:miss") {
+						r.Known(lp.PropFail{Property: "C12", Class: "K18", What: "a template whose static text holds an octet that must stay escaped is matched in one request spelling only", Input: map[string]any{"routes": rsetLine(routes3), "path_a": spellings[0], "path_b": spellings[i]}, Observed: fmt.Sprint(res[i]), Expected: fmt.Sprint(res[0]) + " (and a match)"})
+						break
+					}
+				}
+			}
+		}
+	}
+}
+
+// c12RequestItem: the (method, URL.Path, URL.RawPath) net/http hands to a handler for the request target sp —
+// RawPath is set only when sp is not the default encoding of the decoded path
+func c12RequestItem(method, sp, decoded string) [3]string {
+	if u, err := url.ParseRequestURI(sp); err == nil {
+		return [3]string{method, u.Path, u.RawPath}
+	}
+	raw := sp
+	if raw == decoded {
+		raw = ""
+	}
+	return [3]string{method, decoded, raw}
 }
 
 func gcHexArgs(args []string) string {
